@@ -113,4 +113,24 @@ def AnnWf (c : Chan) : Prop :=
   ∃ (pre : List (Nat × InSt)) (k : Nat), k ≤ c.nextCp ∧ (∀ h ∈ pre, h.2 ≠ .remoteAnnounced) ∧
     c.inb = pre ++ (List.range' (c.nextCp - k) k).map (fun i => (i, InSt.remoteAnnounced))
 
+/-- mirrors FundedChannel::commitment_signed as far as the announced updates go: every RemoteAnnounced inbound HTLC and a
+    RemoteAnnounced fee update move to AwaitingRemoteRevokeToAnnounce (hand-mirrored; only used to state reachability) -/
+def commitSigned (c : Chan) : Chan :=
+  { c with
+    inb := c.inb.map (fun h => (h.1, if h.2 = .remoteAnnounced then .awaitingRemoteRevokeToAnnounce else h.2))
+    fee := match c.fee with
+      | some (r, .remoteAnnounced) => some (r, .awaitingRemoteRevokeToAnnounce)
+      | f => f }
+
+/-- the channel states reachable through the modelled transitions: a fresh channel of either role; an update received from the
+    peer (`recv`); our own update_fee (funder only: `send_update_fee` panics on an inbound channel); the peer's commitment_signed;
+    a disconnection; a write + read -/
+inductive Reach : Chan → Prop
+  | init (ob : Bool) : Reach ⟨ob, [], [], none, none, [], 0, 0⟩
+  | recv {c c' : Chan} (m : Msg) : Reach c → recv c m = some c' → Reach c'
+  | sendFee {c : Chan} (r : Nat) : Reach c → c.outbound = true → Reach { c with fee := some (r, .outbound) }
+  | commit {c : Chan} : Reach c → Reach (commitSigned c)
+  | disconnect {c : Chan} : Reach c → Reach (forget c)
+  | reload {c c' : Chan} : Reach c → readChan c.outbound (writeChan c) = some c' → Reach c'
+
 end Ldk.ChanForget
